@@ -36,26 +36,28 @@ void vr_get(const char *name, void *dst, size_t elem, size_t n);
  * VCOVERMODE (vacuity guard, separate run): only the input-diversity markers are compiled, as assertions that must FAIL. */
 #ifdef VCOVERMODE
 # define VCOVER(c, what) __CPROVER_assert(!(c), "COVER:" what)
-# define VPOST(c, what)  ((void)0)
-# define VFRAME(c, what) ((void)0)
-# define VPRE(c, what)   ((void)0)
+# define VPOST(tags, c, what)  ((void)0)
+# define VFRAME(tags, c, what) ((void)0)
+# define VPRE(tags, c, what)   ((void)0)
 # define VBOUND(c, what) ((void)0)
-# define VPOST_KF(kfdef_on, region, c, what, kfid) ((void)0)
+# define VPOST_KF(tags, kfdef_on, region, c, what, kfid) ((void)0)
 #else
 # define VCOVER(c, what) ((void)0)
-# define VPOST(c, what)  __CPROVER_assert((c), "V:post " what)
-# define VFRAME(c, what) __CPROVER_assert((c), "V:frame " what)
-# define VPRE(c, what)   __CPROVER_assert((c), "V:pre " what)
+/* tags: comma-separated property ids the assertion belongs to, e.g. "C06,C07" (a check for property P counts a failed
+ * assertion only if P is among its tags) */
+# define VPOST(tags, c, what)  __CPROVER_assert((c), "V:post[" tags "] " what)
+# define VFRAME(tags, c, what) __CPROVER_assert((c), "V:frame[" tags "] " what)
+# define VPRE(tags, c, what)   __CPROVER_assert((c), "V:pre[" tags "] " what)
 # define VBOUND(c, what) __CPROVER_assert((c), "V:bound " what)
 /* known finding: `region` describes the inputs on which the real code is known to break P.
  * With the finding listed:   P is demanded outside the region, and a KF: assertion records whether the region still fails.
  * Without (fixed / unlisted): P is demanded everywhere. */
-# define VPOST_KF(kfdef_on, region, c, what, kfid) do { \
+# define VPOST_KF(tags, kfdef_on, region, c, what, kfid) do { \
 	if (kfdef_on) { \
-		__CPROVER_assert((region) || (c), "V:post " what " [outside known-finding region " kfid "]"); \
+		__CPROVER_assert((region) || (c), "V:post[" tags "] " what " [outside known-finding region " kfid "]"); \
 		__CPROVER_assert(!(region) || (c), "KF:" kfid " " what); \
 	} else { \
-		__CPROVER_assert((c), "V:post " what); \
+		__CPROVER_assert((c), "V:post[" tags "] " what); \
 	} } while (0)
 #endif
 
